@@ -89,6 +89,17 @@ def gen_inputs(rng):
     # a ligand complex (mol2 perception uses sets)
     text, mol2, _lr, _ln, _f = c16.gen_complex(rng)
     runs.append((text, ["--ff=AMBER", "--whitespace", "--ligand=@DIR@/lig.mol2"], {"lig.mol2": mol2}))
+    # the same force field with and without a user-supplied names file (which drops the water mapping)
+    import re as _re
+
+    names_txt = (REPO / "pdb2pqr" / "dat" / "AMBER.names").read_text()
+    nowat = _re.sub(r"<residue>\s*<name>WAT</name>.*?</residue>", "", names_txt, count=1, flags=_re.S)
+    _fw, resw = G.window(rng, 3)
+    G.set_chain(resw, "A", 1)
+    cw = G.centroid(resw)
+    wtext = G.to_pdb([resw], [G.water(rng, "A", 900 + i, cw, 9.0) for i in range(2)])
+    runs.insert(0, (wtext, ["--ff=AMBER", "--nodebump", "--noopt"], None))
+    runs.insert(1, (wtext, ["--ff=AMBER", "--nodebump", "--noopt", "--usernames=@DIR@/nowat.names"], {"nowat.names": nowat}))
     _f, res = G.window(rng, 3)
     G.set_chain(res, "A", 1)
     good = G.to_pdb([res])
@@ -115,7 +126,7 @@ def histories(ctx: Ctx, n):
         base = [do_run(r) for r in runs]
         ctx.evaluations += len(runs)
         # histories: every run again after other runs / after failures
-        plan = []
+        plan = [([("ok", 0)], 1), ([("ok", 1)], 0)]  # same force field, different --usernames, either order
         for k in range(len(runs)):
             others = [j for j in range(len(runs)) if j != k]
             plan.append(([("ok", rng.choice(others))], k))
@@ -184,7 +195,9 @@ def hash_seeds(ctx: Ctx, n):
     seen = set()
     for ci in range(n):
         runs, _fails = gen_inputs(rng)
-        r = runs[-1] if ci % 3 == 0 else rng.choice(runs[:-1])
+        # ligand complex / the run with a user-supplied names file (after the plain run of the same force field
+        # was made in this process) / multi-model mmCIF
+        r = runs[-1] if ci % 3 == 0 else runs[1]
         text, opts, extra = r
         inname = "in.pdb"
         if ci % 3 == 2:
